@@ -265,4 +265,30 @@ pub trait ExFromPrimitive: Sized {
         ensures r == from_prim::<Self>(n as int);
 }
 
+
+// ------------------------------------------------------------------ byte streams (std::io::Read, futures AsyncRead)
+
+/// Ghost stream model: the bytes a reader will still deliver before end-of-data or an I/O fault.
+/// A-stream: `read_exact(buf)` succeeds iff that many bytes remain, then delivers exactly the next
+/// `buf.len()` bytes and advances by exactly that — however the source fragments its reads and
+/// whatever `Interrupted`/not-ready results occur in between (std's / futures' documented contract).
+pub uninterp spec fn rd_rest<R: ?Sized>(r: &R) -> Seq<u8>;
+
+#[verifier::external_trait_specification]
+pub trait ExRead {
+    type ExternalTraitSpecificationFor: std::io::Read;
+
+    fn read(&mut self, buf: &mut [u8]) -> std::io::Result<usize>;
+
+    fn read_exact(&mut self, buf: &mut [u8]) -> (r: std::io::Result<()>)
+        ensures
+            final(buf)@.len() == old(buf)@.len(),
+            r is Ok <==> old(buf)@.len() <= rd_rest(old(self)).len(),
+            r is Ok ==> final(buf)@ == rd_rest(old(self)).take(old(buf)@.len() as int)
+                && rd_rest(final(self)) == rd_rest(old(self)).skip(old(buf)@.len() as int);
+}
+
+pub assume_specification[ <bytes::Bytes as From<Vec<u8>>>::from ](v: Vec<u8>) -> (r: bytes::Bytes)
+    ensures buf_seq(&r) == v@;
+
 } // verus!
